@@ -39,3 +39,36 @@ func vxH19Conns() {
 	vxAssert(len(nd.writes) == 1, "third-connection-answered")
 	vxReach("done")
 }
+
+// H19.users: attaches on two connections at the same time, resolved through the library's own user pool (OsUsers,
+// what a server gets when it sets no pool of its own): one uid is new to the pool, the other may be known already.
+func vxH19Users() {
+	kit := vxNewKit(false, false, 8192, true)
+	kit.srv.Upool = OsUsers
+	ver := refEncode(Tversion, NOTAG, []refItem{refU32(8192), refS("9P2000.u")}, true)
+	att := func(uid uint32) []byte {
+		return refEncode(Tattach, 1, []refItem{refU32(0), refU32(NOFID), refS(""), refS(""), refU32(uid)}, true)
+	}
+	na := vxNewNetConn()
+	kit.srv.NewConn(na)
+	nb := vxNewNetConn()
+	kit.srv.NewConn(nb)
+	na.in <- ver
+	nb.in <- ver
+	vxQuiesce()
+	if vxBool("one-uid-known-already") {
+		nc := vxNewNetConn()
+		kit.srv.NewConn(nc)
+		nc.in <- ver
+		vxQuiesce()
+		nc.in <- att(7)
+		vxQuiesce()
+		vxAssert(len(nc.writes) == 2 && nc.writes[1][4] == Rattach, "first-attach-answered")
+	}
+	na.in <- att(7)
+	nb.in <- att(8)
+	vxQuiesce()
+	vxAssert(len(na.writes) == 2 && na.writes[1][4] == Rattach, "attach-on-connection-a-answered")
+	vxAssert(len(nb.writes) == 2 && nb.writes[1][4] == Rattach, "attach-on-connection-b-answered")
+	vxReach("done")
+}
